@@ -49,6 +49,11 @@ def _rect_task(m, K, slack_kind, tier="quick"):
         t.no_raise(paths)
         t.prove_paths("code_is_vertex_formula", paths,
                       lambda p: V.Bz(p.value) == vertex_formula if p.kind == "return" else False)
+        # the two directions separately (consumed by the C01 / C05 lemmas: they need only "True => every pair dominates")
+        t.prove_paths("sound/True_only_if_every_vertex_pair_dominates", paths,
+                      lambda p: z3.Implies(V.Bz(p.value), vertex_formula) if p.kind == "return" else False)
+        t.prove_paths("complete/True_if_every_vertex_pair_dominates", paths,
+                      lambda p: z3.Implies(vertex_formula, V.Bz(p.value)) if p.kind == "return" else False)
         t.frame_unchanged("frame:inputs-not-written", paths, [])
         t.agree(paths)
         t.implicit()
